@@ -5,6 +5,9 @@ CONSTANTS
   MaxFiles = 3
   Rich = FALSE
   WithBad = TRUE
+  Routes = {"inst"}
+  Layouts = {"flat"}
+  Slim = FALSE
 INVARIANT LayeringFollowsDocs
 CHECK_DEADLOCK FALSE
 INVARIANT EmitDone
